@@ -51,7 +51,11 @@ func c16base(callee *ssa.Function) bool {
 		return false
 	}
 	s := callee.String()
-	return s == load.Module+"/circuit.BitFromLabel" || s == "("+load.Module+"/ot.Label).Equal"
+	if s == load.Module+"/circuit.BitFromLabel" || s == "("+load.Module+"/ot.Label).Equal" {
+		return true
+	}
+	// a function that resolves a label against a wire and that the three-case evaluation accepts
+	return labelDecider(callee).ok
 }
 
 func labelTyped(t types.Type) bool { return strings.Contains(t.String(), "/ot.Label") }
